@@ -3,7 +3,8 @@ import Spdc.Model.Wire
 /-!
 Line-protocol handlers for the quadrature family (C12) — Float instance of the model.
 
-Integrand tokens (1-D):  `poly <n> re0 im0 … ` | `exp <k> <re A> <im A>` | `ind <x0>`
+Integrand tokens (1-D):  `poly <n> re0 im0 … ` | `exp <k> <re A> <im A>` | `ind <x0>` | `win a b mr mi nr r… ni i…`
+(structured test polynomial `P_r·w_r + i·P_i·w_i` with windows vanishing exactly at the end points / midpoint)
 Integrand tokens (2-D):  `sep <1-D> <1-D>` | `poly2 <rows> <cols> re im …` (row j = coefficients of `y^j`)
 Every result is divided by the scale `S` given on the line (an upper bound of `∫|f|` computed by the
 harness) so that the comparison tolerance is relative to the integral's scale.
@@ -33,7 +34,32 @@ def chunk (k : Nat) (l : List (Cx Float)) : Nat → List (List (Cx Float))
 def indEval (x0 x : Float) : Cx Float :=
   if ¬ (x < x0) ∧ ¬ (x0 < x) then Cx.one else Cx.zero
 
+/-- real Horner, `cs.iter().rev().fold(0, |acc, c| acc*x + c)` -/
+def hornerR (cs : List Float) (x : Float) : Float := cs.foldr (fun c acc => acc * x + c) 0.0
+
+/-- window of a structured test integrand tied to `[a,b]`, `m = 0.5(a+b)` -/
+def winMode (mode : Nat) (a b x : Float) : Float :=
+  let m := 0.5 * (a + b)
+  match mode with
+  | 0 => 1.0
+  | 1 => (x - a) * (b - x)
+  | 2 => ((x - a) * (b - x)) * ((x - m) * (x - m))
+  | _ => 0.0
+
+def winEval (a b : Float) (mr mi : Nat) (pr pi : List Float) (x : Float) : Cx Float :=
+  ⟨hornerR pr x * winMode mr a b x, hornerR pi x * winMode mi a b x⟩
+
 def parse1 : List String → Option (F1 × List String)
+  | "win" :: a :: b :: mr :: mi :: nr :: r => do
+    let a ← parseFl a; let b ← parseFl b; let mr ← parseNat mr; let mi ← parseNat mi
+    let nr ← parseNat nr
+    let (pr, r1) ← takeFls nr r
+    match r1 with
+    | ni :: r2 =>
+      let ni ← parseNat ni
+      let (pi, r3) ← takeFls ni r2
+      pure (winEval a b mr mi pr pi, r3)
+    | [] => none
   | "poly" :: n :: r => do
     let n ← parseNat n
     let (xs, r') ← takeFls (2 * n) r
